@@ -12,6 +12,7 @@ from ..facts import callee, op_place, strip_generics
 from ..flow import Defs, backward_slice, rv_operands, slice_calls
 
 LEVEL = 'other'
+TECHNIQUE = 'static analysis: case evaluation of the session middleware over all valuations of (will_encrypt, will_sign, state-empty) by abstract interpretation (helpers entered); provenance and control-dependence of cookie attributes on the function with helpers inlined; who-may-call by family; Debug-impl closure'
 CLAUSE = ('every path to ResponseCookies::insert in the session middleware has established (will_encrypt or will_sign) and '
           '(client state empty or will_encrypt) for the cookie returned by Session::finalize; only Session::finalize builds '
           'session cookies; each cookie attribute setter is governed by the like-named config field; the types formatted by '
